@@ -11,6 +11,7 @@ package main
 // listed / unlisted / upper-case-spelled signers for every (FormSize, Min).
 
 import (
+	"sort"
 	"encoding/hex"
 	"encoding/json"
 	"fmt"
@@ -158,6 +159,7 @@ type c14World struct {
 	outs  []string // accounts that are not providers
 	files []c14File
 	desc  map[string]interface{}
+	gone  map[string]storagetypes.Providers // provider records removed by "delprov" (a shutdown), for "setprov"
 }
 
 func (w *c14World) observe() c14State {
@@ -191,9 +193,30 @@ func (w *c14World) observe() c14State {
 		}
 		s.RForms = append(s.RForms, cf)
 	}
-	pr := k.GetParams(ctx)
-	s.FS, s.Min = pr.AttestFormSize, pr.AttestMinToPass
+	// the configured values are what the parameter store holds (what governance set), read without the keeper
+	ss, _ := c15ParamsKeeper(w.e).GetSubspace(storagetypes.ModuleName)
+	ss.Get(ctx, storagetypes.KeyAttestFormSize, &s.FS)
+	ss.Get(ctx, storagetypes.KeyAttestMinToPass, &s.Min)
 	return s
+}
+
+// c14GovSet changes the two parameters the way a passed ParameterChangeProposal does: one key at a time through the
+// parameter subspace (validated by the key's validator), never through Keeper.SetParams.  A value the validator
+// refuses is written through the keeper instead (the harness also explores values governance cannot reach).
+func (w *c14World) c14GovSet(fs, min int64) {
+	k := w.e.App.StorageKeeper
+	_ = k.GetParams(w.e.Ctx) // a running node has read its parameters before any proposal passes
+	ss, _ := c15ParamsKeeper(w.e).GetSubspace(storagetypes.ModuleName)
+	e1 := ss.Update(w.e.Ctx, storagetypes.KeyAttestFormSize, []byte(fmt.Sprintf("%q", fmt.Sprint(fs))))
+	e2 := ss.Update(w.e.Ctx, storagetypes.KeyAttestMinToPass, []byte(fmt.Sprintf("%q", fmt.Sprint(min))))
+	if e1 != nil || e2 != nil {
+		p := k.GetParams(w.e.Ctx)
+		p.AttestFormSize, p.AttestMinToPass = fs, min
+		k.SetParams(w.e.Ctx, p)
+		w.r.Hist("params-route", "keeper")
+		return
+	}
+	w.r.Hist("params-route", "governance")
 }
 
 func (w *c14World) stateTerm(s *c14State) string {
@@ -323,9 +346,7 @@ func (w *c14World) exec(tr *c14Track, op c14Op, hist []c14Op, emit bool) {
 	mb := w.merkleBytes(op.Merkle)
 	switch op.Kind {
 	case "params":
-		p := k.GetParams(e.Ctx)
-		p.AttestFormSize, p.AttestMinToPass = op.FS, op.Min
-		k.SetParams(e.Ctx, p)
+		w.c14GovSet(op.FS, op.Min)
 		r.Hist("ops", "params")
 		return
 	case "delfile":
@@ -354,6 +375,23 @@ func (w *c14World) exec(tr *c14Track, op c14Op, hist []c14Op, emit bool) {
 	case "setproof":
 		k.SetProof(e.Ctx, storagetypes.FileProof{Prover: op.Prover, Merkle: mb, Owner: op.Owner, Start: op.Start, LastProven: op.LP})
 		r.Hist("ops", "env-setproof")
+		return
+	case "delprov": // what MsgShutdownProvider does to the stores this property reads: the provider record goes, its proofs stay
+		if pv, found := k.GetProviders(e.Ctx, op.Prover); found {
+			if w.gone == nil {
+				w.gone = map[string]storagetypes.Providers{}
+			}
+			w.gone[op.Prover] = pv
+			k.RemoveProviders(e.Ctx, op.Prover)
+		}
+		r.Hist("ops", "env-delprov")
+		return
+	case "setprov": // ... and the same account registering again
+		if pv, ok := w.gone[op.Prover]; ok {
+			k.SetProviders(e.Ctx, pv)
+			delete(w.gone, op.Prover)
+		}
+		r.Hist("ops", "env-setprov")
 		return
 	case "setip":
 		pv, found := k.GetProviders(e.Ctx, op.Prover)
@@ -751,9 +789,7 @@ func c14NewWorld(r *RunCtx) (*c14World, error) {
 }
 
 func (w *c14World) setParams(fs, min int64) {
-	p := w.e.App.StorageKeeper.GetParams(w.e.Ctx)
-	p.AttestFormSize, p.AttestMinToPass = fs, min
-	w.e.App.StorageKeeper.SetParams(w.e.Ctx, p)
+	w.c14GovSet(fs, min)
 }
 
 func (w *c14World) describe() {
@@ -890,7 +926,19 @@ func c14RandomHistory(r *RunCtx, p *PRNG, sc int) error {
 					cur = &st.Files[k]
 				}
 			}
-			switch p.Intn(5) {
+			switch p.Intn(7) {
+			case 5:
+				op.Kind, op.Prover = "delprov", lf.Prover
+			case 6:
+				op.Kind, op.Prover = "setprov", lf.Prover
+				if len(w.gone) > 0 && p.Bool() {
+					gs := []string{}
+					for g := range w.gone {
+						gs = append(gs, g)
+					}
+					sort.Strings(gs)
+					op.Prover = gs[0]
+				}
 			case 0:
 				if cur != nil {
 					op.Kind = "delfile"
